@@ -43,7 +43,7 @@ def run(ctx):
             if i < 3:
                 ctx.sample({"program": prog})
         # spec -> code: every session TLC explores on the delimiter part of the model's universe
-        progs, kw, sessions, _ = speccode.explore(ctx, focus="C08", part=speccode.part_of(ctx, 16 if quick else 16))
+        progs, kw, sessions, _ = speccode.explore(ctx, focus="C08", part=speccode.part_of(ctx, 24 if quick else 24))
         nt += speccode.drive(camp, progs, kw, sessions)
         vs = camp.validate()
         campaign.judge(ctx, camp, vs, conformance=lambda v, m: campaign.kind_of(v) in KINDS and m["case"]["op"] == "parse")
